@@ -915,6 +915,61 @@ def inline_new_helpers(tree: ast.AST, ref_functions: Set[str]) -> int:
     return done
 
 
+def inline_local_functions(fn: ast.AST, keep: Set[str] = frozenset()) -> int:
+    """A function defined inside `fn` (a closure over fn's variables) that is only ever called by name, whose body is one
+    `return <expr>`, a decision list, or a straight-line procedure, is substituted at its call sites (names in `keep` are left)."""
+    done = 0
+    for _ in range(4):
+        progressed = False
+        for blk in list(blocks_of(fn)):
+            for h in [s for s in blk if isinstance(s, ast.FunctionDef) and s is not fn]:
+                if h.name in keep or h.decorator_list:
+                    continue
+                kind = _helper_kind(h)
+                if kind is None:
+                    continue
+                hparams = {a.arg for a in h.args.posonlyargs + h.args.args}
+                if any(isinstance(n, ast.Name) and isinstance(n.ctx, (ast.Store, ast.Del)) and n.id in hparams for n in ast.walk(h)):
+                    continue
+                if any(isinstance(n, ast.Nonlocal) for n in ast.walk(h)):
+                    continue
+                # a procedure that binds names would bind them in the enclosing function after substitution: only when they are its own
+                outer_names = {n.id for n in ast.walk(fn) if isinstance(n, ast.Name) and not any(n is x for x in ast.walk(h))}
+                own_stores = {n.id for n in ast.walk(h) if isinstance(n, ast.Name) and isinstance(n.ctx, ast.Store)}
+                if own_stores & outer_names:
+                    continue
+                refs = [n for n in ast.walk(fn) if isinstance(n, ast.Name) and n.id == h.name and not any(n is x for x in ast.walk(h))]
+                calls = [c for c in ast.walk(fn) if isinstance(c, ast.Call) and isinstance(c.func, ast.Name) and c.func.id == h.name
+                         and not any(c is x for x in ast.walk(h))]
+                if not calls or len(refs) != len(calls):
+                    continue  # also handed around as a value (key=..., weights=...)
+                if any(isinstance(n, ast.Name) and n.id == h.name for n in ast.walk(h)):
+                    continue  # recursive
+                ok_all = True
+                for c in calls:
+                    binding = _bind_args(h, c, drop_first=False)
+                    if binding is None or not _inline_site(fn, c, h, kind, binding):
+                        ok_all = False
+                        break
+                    done += 1
+                if ok_all:
+                    for b2 in blocks_of(fn):
+                        if any(x is h for x in b2):
+                            b2.remove(h)
+                            if not b2:
+                                b2.append(ast.Pass())
+                            break
+                    progressed = True
+                    break
+            if progressed:
+                break
+        if not progressed:
+            break
+    if done:
+        ast.fix_missing_locations(fn)
+    return done
+
+
 def _inside(cls, node, tree) -> bool:
     return any(n is node for n in ast.walk(cls))
 
